@@ -117,8 +117,15 @@ def main(argv=None):
                     if not o['info'].get('bounded'):
                         d_obls += 1
             else:
-                undecided.append(o)
-                d_obls += 1
+                ent = next((e for e in known if match_known(e, prop, o)), None) if o['status'] == 'undecided' else None
+                if ent is not None:
+                    # an obligation inside a recorded (open) finding that the solver could not settle this run: the finding stands on its recorded failing input,
+                    # it is neither counted as proved nor allowed to turn the run undecided
+                    known_hit.setdefault(ent['id'], (ent, []))[1].append(o)
+                    excluded += 1
+                else:
+                    undecided.append(o)
+                    d_obls += 1
 
     # native replay of refuted obligations (violations and one representative per known finding)
     rep_dir = os.path.join(HERE, 'replays', prop)
